@@ -136,4 +136,27 @@ theorem mem_tagFrom {mk : Nat → SrvRef} : ∀ {l : List Server} {j : Nat} {x :
       exact ⟨i + 1, by simpa using h1, by rw [h2]; congr 1; omega⟩
 
 
+theorem specServerRems_sound (e : Bool) (s : Server) (r : Req) (rem : Str) (h : rem ∈ specServerRems e s r) :
+    ∃ vals, Fills (sparseS (dropOneSlash s.url)) vals
+        (if isRelativeURL (dropOneSlash s.url) then r.path else fullURL r) rem ∧
+      (rem = [] ∨ rem.head? = some '/') ∧
+      (e = true → enumOK s (svarNames (sparseS (dropOneSlash s.url))) vals = true) := by
+  simp only [specServerRems, List.mem_filterMap] at h
+  obtain ⟨⟨vals, rest⟩, hm, hc⟩ := h
+  split at hc
+  · rename_i hcond
+    simp only [Option.some.injEq] at hc
+    subst hc
+    simp only [Bool.and_eq_true, Bool.or_eq_true, decide_eq_true_eq, Bool.not_eq_true'] at hcond
+    refine ⟨vals, (smatchP_iff _ _ _ _).1 hm, ?_, ?_⟩
+    · rcases hcond.1 with h1 | h1
+      · exact Or.inl h1
+      · exact Or.inr (by simpa using h1)
+    · intro he
+      rcases hcond.2 with h2 | h2
+      · rw [he] at h2; simp at h2
+      · exact h2
+  · simp at hc
+
+
 end KinModel.Router
